@@ -67,6 +67,14 @@ def shim_programs():
     out.append(('word:ldbcneg', head + [A.imm('LDBC', -77), A.imm('LDAC', 0), A.opr('ADD')] + exita))
     out.append(('word:ldaineg', [A.ref('BR', 'go'), A.lab('sp'), A.data(150000), A.lab('w'), A.data(-123456789), A.lab('go'), A.imm('LDAC', 6), A.imm('LDAI', -4)] + exita))
     out.append(('word:brnneg', head + [A.imm('LDAC', -2 ** 31 + 1), A.ref('BRN', 't'), A.imm('LDAC', 5), A.lab('t')] + exita))
+    # a branch whose condition was established two or three instructions earlier, with instructions in between that do or do not write
+    # areg (a processor that keeps condition flags instead of testing areg shows here and nowhere else)
+    k = 0
+    for first in ([A.imm('LDAC', 0)], [A.imm('LDAC', -1)], [A.imm('LDAC', 5)], [A.imm('LDAC', -2 ** 31), A.imm('LDBC', 1), A.opr('SUB')], [A.imm('LDAC', 1), A.imm('LDBC', 1), A.opr('SUB')], []):
+        for mid in ([], [A.ref('LDAP', 'tt')], [A.imm('LDBC', 3)], [A.ref('LDBM', 'sp')], [A.ref('LDAM', 'sp')], [A.ref('LDAP', 'tt'), A.imm('LDBC', 1)], [A.ref('STAM', 'w')]):
+            for br in ('BRZ', 'BRN'):
+                prog = [A.ref('BR', 'go'), A.lab('sp'), A.data(150000), A.lab('w'), A.data(0), A.lab('go')] + first + mid + [A.ref(br, 'tt'), A.imm('LDAC', 77), A.lab('tt')] + exita
+                out.append(('word:flags%d' % k, prog)); k += 1
     return [(i, p, asmlib.src_of(p)) for i, p in out]
 
 
